@@ -1183,6 +1183,19 @@ def rule_P4(ctx):
     ok2 = False
     for c in after:
         atoms = _atoms_wo_validation(fg, c)
+        alts_ = expand_alternatives(f, fg, atoms)
+        if len(alts_) == 1:
+            atoms = alts_[0]   # boolean locals replaced by what they stand for
+        elif len(alts_) > 1 and not any(a[0] == "in" and a[2] == completed for a in atoms):
+            # the condition hides in boolean locals: judge the alternatives
+            def plain(alt):
+                return [a for a in alt if not (a[0] == "in" and a[2] == completed)
+                        and not (a[0] in ("falsy", "notin") and (
+                            "has_items" in str(a[1]) or "status" in str(a[1])))]
+            if all(any(a[0] == "in" and a[2] == completed for a in alt) and not plain(alt)
+                   for alt in alts_):
+                ok2 = True
+                continue
         if any(a[0] == "==" and a[2] == "retrying" for a in atoms):
             continue  # retry re-stage
         extra = []
@@ -1757,8 +1770,18 @@ def rule_P7(ctx):
                     star_v = prog.fold(i.body, comp.module) == "*"
                 except NotFoldable:
                     star_v = False
-                okv = star_v and \
-                    "'all'" in unparse(i.test).replace('"', "'") and "join" in unparse(i.orelse)
+                # the test compares the declared join with "all" (written out or as a constant)
+                all_v = False
+                for cmp_ in ast.walk(i.test):
+                    if isinstance(cmp_, ast.Compare) and len(cmp_.ops) == 1 and isinstance(
+                            cmp_.ops[0], ast.Eq):
+                        for side in (cmp_.left, cmp_.comparators[0]):
+                            try:
+                                if prog.fold(side, comp.module) == "all":
+                                    all_v = True
+                            except NotFoldable:
+                                pass
+                okv = star_v and all_v and "join" in unparse(i.test) and "join" in unparse(i.orelse)
         if guarded and okv:
             res.holds(inst)
         else:
